@@ -39,7 +39,8 @@ EXPLANATION = (
     "_get_single result unchanged. (G5) the loop test is `url in chain` before the fetch and "
     "the appended element is the fetched URL. "
     "(G6) the accessor of the response the follower reads for the next hop returns self.meta unaltered. "
-    "(G7) max_redirects reaches the client as the caller's own value."
+    "(G7) max_redirects reaches the client as the caller's own value. "
+    "(G5, fresh) callers start the follower with a fresh chain. (G9) = C19.N1-N3 for the TOFU key of every hop."
 )
 
 SESSION = "client.session:GeminiClient"
